@@ -3,7 +3,7 @@ from .. import gen as G
 from .common import TRUSTED, ASSUMPTIONS, default_nontrivial, LEVEL_NOTE, TECHNIQUE
 
 LEVEL = "proof"
-THEOREMS = []
+THEOREMS = ['C03_refines_spec', 'C03_acm_evidence', 'C03_avg_evidence', 'C03_wgh_evidence', 'C03_ecm_def', 'C03_one_dogmatic', 'C03_two_dogmatic', 'C03_two_vacuous', 'C03_base_rates']
 RULE = ("fuse / fuse_os / fuse_ss for the 4 operators: guard lattice (vacuous, dogmatic, tolerance-edge vacuous u=1-k*eps/2, "
         "tolerance-edge dogmatic, interior; base rates different / equal / within a few ulps / one shared object), dyadic grids "
         "(exhaustive den 4 for n=2,3 in thorough; random up to 1/64), uncertainty sweeps 1e-300..1e-3 and 1-1e-3..1-2^-52, "
